@@ -17,6 +17,23 @@ CHECKS = {
         'Trusted: Coq kernel + vm_compute, the hand-written model, the harness (generator, term printer). FuncCalendar '
         'and user subclasses are outside the model. The tie is differential testing, the theorems are about the model.',
         '4.17'),
+    'C03': (
+        'Coq proof of the ledger invariant for both scheduler models (abstract step machine refined by the recursive pass) + verified boolean oracle evaluated on the rows returned by the implementation',
+        'Theorems (Props_C03.v): for every WBS, capacity function >= 0, balance setting, bound and clock, every row of the '
+        'forward/backward model schedule is a positive amount on its task\'s resource on a day with capacity and the day\'s '
+        'bookings never exceed the capacity; the oracle c03_b is proved equivalent to that statement and is evaluated on what '
+        'the implementation returns for generated WBSs/calendars; the model is compared exactly with the implementation on the dyadic grid.',
+        'Trusted: Coq kernel, the hand-written scheduler model (exact integer arithmetic; float rounding modelled out; '
+        'correspondence exact only on the dyadic grid), harness incl. tabulation of the real resources into the capacity function.',
+        '4.3'),
+    'C12': (
+        'Coq proof that the code\'s activity-on-arc computation equals the longest-chain characterisation + differential correspondence on generated WBSs',
+        'Theorems (Props_C12.v): earliest finish / tail are maximal chain lengths, slack of the modelled network computation = '
+        'L - (ef + tail - d), critical set exact, non-empty, expansion of summary links exact, unit independence; the model is the '
+        'functional specification and is compared with WBS.critical_path() on generated acyclic WBSs (exact rationals).',
+        'Trusted: Coq kernel, hand-written model of the repaired calculator, the harness\'s independent expansion to a leaf DAG; '
+        'recursion depth and the end_date branch are not modelled.',
+        '4.12'),
 }
 
 NOT_YET = 'check not built yet in this round (planned, see DESIGN.md section 4)'
